@@ -4,6 +4,7 @@
 #define XV_STD_H
 #include <stddef.h>
 #include <string.h>
+#include <stdlib.h>
 
 typedef struct { char __empty; } xv_empty;
 
@@ -20,6 +21,7 @@ extern int xv_exc;
 #define XV_CANARY() __CPROVER_assert(0, "canary: end of harness reachable (must fail)")
 
 /* ghost index: arbitrary, so a statement about position xv_g holds for every position */
+extern unsigned long xv_a0, xv_a1, xv_a2, xv_a3, xv_a4, xv_a5, xv_a6, xv_a7;   /* ghost scalars defined by equalities in requires clauses (let-bindings of spec terms) */
 extern unsigned long xv_g, xv_n, xv_k, xv_m;   /* xv_n, xv_k, xv_m: further ghost quantities (lengths, offsets) */
 
 /* allocation bound of the heap-storage models */
@@ -29,12 +31,14 @@ extern unsigned long xv_g, xv_n, xv_k, xv_m;   /* xv_n, xv_k, xv_m: further ghos
 
 /* std::string storage model */
 typedef struct { char* data; unsigned long size; } xv_str;
-#define XV_STR_CAP (XV_MAXLEN + 16)
-static inline void xv_str_init(xv_str* s) { s->data = (char*)malloc(XV_STR_CAP); __CPROVER_assume(s->data != 0); s->size = 0; }
-static inline void xv_str_push_back(xv_str* s, char c) { __CPROVER_assume(s->size + 1 < XV_STR_CAP); s->data[s->size] = c; s->size = s->size + 1; }
+#define XV_STR_CAP (2 * XV_MAXLEN + 16)
+unsigned long nondet_xv_cap(void);
+/* the heap block has a symbolic size >= XV_STR_CAP so that the verifier keeps it as an unbounded array (no flattening) */
+static inline void xv_str_init(xv_str* s) { unsigned long cap = nondet_xv_cap(); __CPROVER_assume(cap >= XV_STR_CAP && cap <= 2 * XV_STR_CAP); s->data = (char*)malloc(cap); __CPROVER_assume(s->data != 0); s->size = 0; }
+static inline void xv_str_push_back(xv_str* s, char c) { __CPROVER_assert(s->size + 1 < XV_STR_CAP, "string model: capacity bound not exceeded"); s->data[s->size] = c; s->size = s->size + 1; }
 
 #define XV_VEC_AT(v,i) ((v)->data[i])
-#define XV_ARR_FILL(a, v) do { for (unsigned long __i = 0; __i < sizeof((a)->a)/sizeof((a)->a[0]); ++__i) (a)->a[__i] = (v); } while (0)
+#define XV_ARR_FILL(xp, xval) __CPROVER_array_set((xp)->a, (xval))   /* std::array::fill: every element set */
 
 static inline void xv_abort(void) { __CPROVER_assume(0); }
 #endif
